@@ -193,6 +193,7 @@ def weave_fn(fs: FnSpec, text: str, sig_brace: int, shim_table):
         return loops[k - 1]
 
     order = 0
+    edits.append((sig_brace + 1, -1, '/*@ENTRY:%s*/' % name))
     if 'ret' in fs.opts:
         # name the return value:  `-> T {`  becomes  `-> (r: T) {`
         arrow = m.rfind('->', 0, sig_brace)
@@ -293,6 +294,8 @@ def weave_fn(fs: FnSpec, text: str, sig_brace: int, shim_table):
 
 
 def strip_woven(w: str) -> str:
+    w = re.sub(r'/\*@ENTRY:[A-Za-z0-9_]+\*/', '', w)
+    w = re.sub(r'//@FN[<>] [A-Za-z0-9_]+\n', '', w)
     w = re.sub(r'\n//@W<[^\n]*\n.*?//@W>\n', '', w, flags=re.S)
     w = re.sub(r'/\*@w<\*/.*?/\*@w>\*/', '', w, flags=re.S)
 
@@ -348,9 +351,11 @@ def build_unit(spec_path, repo, contracts_dir, shim_table):
         else:
             woven = weave_fn(fs, text, brace - a, shim_table)
         if strip_woven(woven).replace('#[verifier::external_body]\n', '') != text:
+            open('/tmp/weave_roundtrip_a.txt', 'w').write(strip_woven(woven))
+            open('/tmp/weave_roundtrip_b.txt', 'w').write(text)
             raise WeaveError('round-trip mismatch in %s' % fs.name)
         roundtrip.append((rel, text))
-        fn_texts.append((fs, woven))
+        fn_texts.append((fs, '//@FN< %s\n%s\n//@FN> %s\n' % (fs.name, woven, fs.name)))
         fn_info[fs.name] = dict(src=rel, line=s.lineno(a), impl=hdr, text=text, props=fs.props, extern=fs.extern,
                                 shims=fs.shims)
 
